@@ -319,7 +319,7 @@ func genStoreCase(r *rand.Rand, id int) *Case {
 				if c.Bal[a] == nil {
 					c.Bal[a] = map[string]int64{}
 				}
-				c.Bal[a][as] = int64(pick(r, []int{0, 0, 3, 7, 10, 25, 60}))
+				c.Bal[a][as] = int64(pick(r, []int{0, 0, 3, 7, 10, 25, 60, -4}))
 			}
 		}
 	}
